@@ -1,12 +1,16 @@
 \* prints vectors (template; checks write their own copy with the tier's constants)
 SPECIFICATION Spec
 CONSTANTS
-  Fams = {"types", "multi", "hdr", "names", "optend", "combo", "api"}
+  Fams = {"types", "multi", "hdr", "names", "optend", "combo", "api", "sfx"}
   MutKinds = {"trunc", "len", "rdlen", "ptr", "subst"}
   ComboN = 60
   Seed = 1
   Stride = 5
   Phase = 0
+  SfxLen = 2
+  XFlagSet = {0, 1, 2, 3, 4, 5, 6, 7, 8, 9, 10, 11, 12, 13, 14, 15, 16, 17, 18, 19, 20, 21, 22, 23, 24, 25, 26, 27, 28, 29, 30, 31, 32, 33, 34, 35, 36, 37, 38, 39, 40, 41, 42, 43, 44, 45, 46, 47, 48, 49, 50, 51, 52, 53, 54, 55, 56, 57, 58, 59, 60, 61, 62, 63}
+  XFlagFams = {"types", "multi", "hdr", "optend"}
+  XFlagLays = {2}
   FlagSet = {0, 63}
   MutLays = {3, 5}
   AsCoded = FALSE
